@@ -164,31 +164,34 @@ func (h *H[T]) Apply(op seqmc.Op) *seqmc.Fail {
 		if co.Len != orig.Len || !reflect.DeepEqual(co.In, orig.In) {
 			return seqmc.Failf("Clone:contents", "Clone of %+v has contents %+v", orig, co)
 		}
-		// shares no state: mutate the clone, the original must keep its fingerprint
+		// shares no state: mutate a clone step by step, the original must keep its
+		// fingerprint after every single step, and vice versa
 		keyOld := fp.Of(&old)
-		probe := h.T.Clone()
-		probe.Add(h.mk(0))
-		probe.Remove(h.mk(h.P.U - 1))
-		probe.Clear()
-		_ = probe
-		// mutate a second clone taken from the original and compare the original
 		c2 := old.Clone()
-		c2.Add(h.mk(h.P.U - 1))
-		for v := 0; v < h.P.U; v++ {
-			c2.Remove(h.mk(v))
+		step := func(t *avl.Tree[T], i int) {
+			switch {
+			case i == 0:
+				t.Add(h.mk(h.P.U - 1))
+			case i == 1:
+				t.Add(h.mk(0))
+			case i-2 < h.P.U:
+				t.Remove(h.mk(i - 2))
+			default:
+				t.Clear()
+			}
 		}
-		if fp.Of(&old) != keyOld {
-			return seqmc.Failf("Clone:shares-state", "mutating a clone changed the original tree")
+		for i := 0; i <= h.P.U+2; i++ {
+			step(&c2, i)
+			if fp.Of(&old) != keyOld {
+				return seqmc.Failf("Clone:shares-state", "mutation %d of a clone changed the original tree", i)
+			}
 		}
-		// and the other direction: mutate the original, the clone (now h.T) must not change
 		keyClone := fp.Of(&h.T)
-		old.Add(h.mk(0))
-		for v := 0; v < h.P.U; v++ {
-			old.Remove(h.mk(v))
-		}
-		old.Clear()
-		if fp.Of(&h.T) != keyClone {
-			return seqmc.Failf("Clone:shares-state", "mutating the original changed its clone")
+		for i := 0; i <= h.P.U+2; i++ {
+			step(&old, i)
+			if fp.Of(&h.T) != keyClone {
+				return seqmc.Failf("Clone:shares-state", "mutation %d of the original changed its clone", i)
+			}
 		}
 	default:
 		panic("unknown op " + op.Name)
